@@ -119,6 +119,13 @@ class C20(Oracle):
                     w.violation('C20', 'shared-' + r[0], st, r[1], culprit)
                     return
         # -- caller-owned containers
+        ck = st.extra.get('container')
+        if ck is not None and st.outcome == 'ok' and isinstance(w.containers[ck][0], np.ndarray):
+            tgt = st.ret if st.op['op'] == 'new_cont' else (w.slots[st.dest].obj if st.dest is not None else None)
+            tv = getattr(tgt, 'val', None)
+            if isinstance(tv, np.ndarray) and tv.dtype.kind != 'O' and np.shares_memory(tv, w.containers[ck][0]):
+                w.violation('C20', 'aliases-caller-array', st, {'container': ck}, culprit)
+                return
         for ci, (c, pristine) in enumerate(w.containers):
             if not V.same_container(c, pristine):
                 w.violation('C20', 'container-mutated', st,
